@@ -95,6 +95,29 @@ CLAIMED.update({
                      'absence of hangs are NOT decided.', ref='5 (C21)'),
 })
 
+CLAIMED.update({
+    'C05': dict(cat='other', tech='exhaustive finite-domain tabulation of table-driven IR fragments (delta code, selector code, header automaton) against the reference rule; path-sensitive abstract exploration of the decompressor tasks; guard/dominance rules',
+                text='Decides: (a) the delta-code step of retrieve() (tables L/R/RH/RL + range test + update) agrees with the '
+                     'bzip2 1.0.x step-by-step rule on all 4608 (position, length, 6-bit pattern) cases - consumed bits, '
+                     'resulting length, accept/reject - and the selector unary code on all 320 cases; (b) every result of '
+                     'retrieve()/emit()/parse() is carried unchanged to do_reorder()/do_parse(), where every value other '
+                     'than OK/MORE(/FINISH) ends in failf(err2str(code)); a block reaches the writer only if it is within '
+                     'its own stream\'s declared size and, when finished, its 32-bit CRC matches; (c) a stream ending '
+                     'inside the zero padding is ERR_EOF; (d) the header automaton of parse() equals the container format '
+                     'automaton on every (state, word class, mode) incl. trailing-data rule, byte alignment, CRC assembly '
+                     'bit by bit, end-of-input results; run-length accumulation is bounded. Does NOT decide that the bytes '
+                     'written equal the reference decoding (BWT/Huffman arithmetic).', ref='5 (C05)'),
+    'C15': dict(cat='other', tech='path-sensitive abstract exploration of do_reorder/do_emit/do_parse, provenance chain of both compared fields, per-block fold/store pairing in emit(), table equivalence, bit-by-bit tabulation of the CRC states of parse()',
+                text='Decides: a finished block reaches the writer only when the unmasked 32-bit comparison oblk->crc != '
+                     'ord.hdr.crc is false, whatever its position, and a mismatch ends in failf(); the stored side is what '
+                     'parse() assembled from two full 16-bit words and do_parse() queued; the computed side is emit()\'s '
+                     's ^ 0xFFFFFFFF copied on all 32 bits, s starting at 0xFFFFFFFF per block, surviving suspension, and '
+                     'folding every output byte through crc_table == CRC-32/BZIP2; the stream CRC comparison and the '
+                     'combination rotl1(c)^crc are tabulated from parse(): every single-bit difference of the stored or '
+                     'computed value yields ERR_STRMCRC, which do_parse() turns into failf(). Does not decide that emit() '
+                     'reproduces the right bytes.', ref='5 (C15)'),
+})
+
 NA = {
     'C01': 'round-trip equality is a numerical fact about RLE/BWT/MTF/Huffman and its inverse over all byte strings; '
            'no sound static argument in reach bounds it (DESIGN.md section 6); its shape-level fragments are decided '
